@@ -3,7 +3,7 @@
    *IDN? and disconnects on any number of connections; d over every directory content. *)
 From Coq Require Import List Arith ZArith Bool NArith Lia.
 Import ListNotations.
-Require Import FV.Gen.C20 FV.C20.Model FV.C20.Lemmas FV.C20.LemmasRot FV.C20.Refuted.
+Require Import FV.Gen.C20 FV.C20.Model FV.C20.Lemmas FV.C20.LemmasRot.
 
 (* obligations on the facts regenerated from /repo (Gen/C20.v) *)
 Theorem C20_source_facts :
@@ -15,29 +15,26 @@ Theorem C20_source_facts :
 Proof. repeat split; reflexivity. Qed.
 
 (* Routing, full strength and exact: after ANY history, the messages connection c gets for a record of module m
-   with level number lv are exactly [expected]: one message (c, m, name of lv) if the latest deciding request of c
-   for m (spec_choice: the specification, a scan of the history) chose a level x <= lv, nothing otherwise.
-   The statement covers level numbers without a name too (nothing is delivered: finding
-   C20/record-level-without-name, see C20_refuted_unnamed_level). *)
-Theorem C20_routing_exact : forall mods ops m lv c,
-  deliv_to c (fst (handle (run mods ops) m lv)) = expected (spec_choice mods (rev ops) m c) m lv c.
+   with level number lv (python level name py) are exactly [expected]: one message (c, m, name of lv) if the latest
+   deciding request of c for m (spec_choice: the specification, a scan of the history) chose a level x <= lv, nothing
+   otherwise.  The name is the SECoP level name, or python's name for level numbers without one (critical, custom levels). *)
+Theorem C20_routing_exact : forall mods ops m lv py c,
+  deliv_to c (handle (run mods ops) m lv py) = expected (spec_choice mods (rev ops) m c) m lv py c.
 Proof. intros; apply routing_exact. Qed.
 
 (* The property sentence "receives a log message exactly when the module is enabled and the level is at or above
-   the chosen one".  Full statement: for every lv.  Proved for every lv that has a level name (debug, comlog, info,
-   warning, error, off); the excluded class is exactly the finding above. *)
-Theorem C20_routing_except_unnamed_level : forall mods ops m lv c nm,
-  level_name lv = Some nm ->
-  (In (c, m, nm) (fst (handle (run mods ops) m lv)) <->
-   exists x, spec_choice mods (rev ops) m c = Some x /\ (x <= lv)%Z).
-Proof. intros; apply routing_iff; assumption. Qed.
+   the chosen one", for EVERY level number (was C20_routing_except_unnamed_level; the guard went away with 22ea150). *)
+Theorem C20_routing : forall mods ops m lv py c,
+  In (c, m, record_name lv py) (handle (run mods ops) m lv py) <->
+  exists x, spec_choice mods (rev ops) m c = Some x /\ (x <= lv)%Z.
+Proof. intros; apply routing_iff. Qed.
 
 (* Switching off, re-identifying or disconnecting stops delivery: after a silencing operation of c for m, and as long
    as c sends no new logging request, no record of m reaches c, whatever everybody else does. *)
-Theorem C20_stop : forall mods ops1 o ops2 m c lv,
+Theorem C20_stop : forall mods ops1 o ops2 m c lv py,
   silences mods o m c ->
   (forall o', In o' ops2 -> is_logging_by c o' = false) ->
-  deliv_to c (fst (handle (run mods (ops1 ++ o :: ops2)) m lv)) = [].
+  deliv_to c (handle (run mods (ops1 ++ o :: ops2)) m lv py) = [].
 Proof. intros; apply stop_exact; assumption. Qed.
 
 (* the three ways of stopping named in the property are silencing operations *)
@@ -128,13 +125,19 @@ Qed.
 (* non-vacuity: a history with two connections in which every clause of the property is exercised *)
 Definition mA : name := [109; 48]%N.
 Definition mB : name := [109; 49]%N.
+Definition s_critical : name := [99; 114; 105; 116; 105; 99; 97; 108]%N.
 Definition demo_ops : list op :=
-  [OLogging 0 (Some mA) (LStr s_debug); OLogging 1 None (LStr s_warning); OEmit mA 20%Z; OEmit mB 30%Z;
-   OLogging 0 (Some mA) (LStr s_off); OEmit mA 40%Z; OIdent 1; OEmit mA 40%Z].
+  [OLogging 0 (Some mA) (LStr s_debug); OLogging 1 None (LStr s_warning); OEmit mA 20%Z s_info; OEmit mB 30%Z s_warning;
+   OLogging 0 (Some mA) (LStr s_off); OEmit mA 40%Z s_error; OIdent 1; OEmit mA 40%Z s_error;
+   OLogging 1 (Some mB) (LStr s_error); OEmit mB 50%Z s_critical].
 Example C20_demo :
   trace_from [mA; mB] [] demo_ops =
-  [(0, mA, s_info); (1, mB, s_warning); (1, mA, s_error)].
+  [(0, mA, s_info); (1, mB, s_warning); (1, mA, s_error); (1, mB, s_critical)].
 Proof. vm_compute. reflexivity. Qed.
+
+Definition frappy : name := [102; 114; 97; 112; 112; 121]%N.
+Definition date_n (n : N) : name := [50; 48; 50; 52; 45; 48; 49; 45; 48; 48 + n]%N.   (* 2024-01-0n *)
+Definition dated (n : N) : entry := {| e_name := log_name frappy (date_n n); e_file := true |}.
 
 (* four earlier files, a later-dated file, a sub-directory, a foreign file and a link carrying a log name; retention 2 *)
 Example C20_demo_rotation :
@@ -148,7 +151,7 @@ Proof. vm_compute. reflexivity. Qed.
 
 Print Assumptions C20_source_facts.
 Print Assumptions C20_routing_exact.
-Print Assumptions C20_routing_except_unnamed_level.
+Print Assumptions C20_routing.
 Print Assumptions C20_stop.
 Print Assumptions C20_stop_ways.
 Print Assumptions C20_others_unaffected.
@@ -157,4 +160,3 @@ Print Assumptions C20_rollover_frame.
 Print Assumptions C20_only_earlier_own_logs_removed.
 Print Assumptions C20_retention_zero_keeps_all.
 Print Assumptions C20_retention.
-Print Assumptions C20_refuted_unnamed_level.
